@@ -622,6 +622,12 @@ static void run_custom(ACtx &c, int id, uint64_t variant)
 				c.viol("unusable-after-failed-update", "encoder could not finish after lzma_filters_update");
 			}
 			c.al.fail_nth = saved_nth; c.al.fail_from = saved_from;
+		} else if (dead) {
+			// the coding call reported the failed allocation; the client may still call
+			// lzma_filters_update() on the handle (accepted or not) before ending it:
+			// everything must go back to the allocator
+			(void)lzma_filters_update(&s, ch2.f);
+			c.v->count("reach.filters_update_after_mem_error");
 		}
 		lzma_end(&s);
 		return;
